@@ -20,7 +20,7 @@ package ice
 //@ spec macro pairsIndexed(a *Agent) = (forall i int :: 0 <= i && i < len(a.checklist) ==> a.checklist[i] != nil && a.checklist[i].id >= 1 && a.checklist[i].id <= a.nextPairID && has(a.pairsByID, a.checklist[i].id) && a.pairsByID[a.checklist[i].id] == a.checklist[i])
 
 //@ func (*Agent).addPair
-//@   props C06
+//@   props C06 C17
 //@   ensures C06 index-invariant-preserved: old(pairsIndexed(a)) ==> pairsIndexed(a)
 //@   ensures C06 new-id-is-unused: old(pairsIndexed(a)) ==> forall i int :: 0 <= i && i < len(a.checklist) - 1 ==> a.checklist[i].id != result.id
 //@   requires C06 id-space-not-exhausted: a.nextPairID < 18446744073709551615
@@ -30,6 +30,7 @@ package ice
 //@   ensures new-pair: result != nil && fresh(result) && result.Local == local && result.Remote == remote && result.state == CandidatePairStateWaiting
 //@   ensures appended-last: len(a.checklist) == old(len(a.checklist)) + 1 && a.checklist[len(a.checklist) - 1] == result
 //@   ensures indexed-by-id: has(a.pairsByID, result.id) && a.pairsByID[result.id] == result
+//@   ensures C17 C06 new-pair-takes-the-current-role: result.iceRoleControlling == (a.isControlling != 0)
 //@   ensures index-grows-by-at-most-one: len(a.pairsByID) <= old(len(a.pairsByID)) + 1
 
 // The only writer of the pair id counter is addPair.
